@@ -138,6 +138,10 @@ class OracleMixin:
             self.violate("C06.bystander", f"task {t.tid} observed a CancelledError ({where}) it was not owed (seen {t.seen}, owed {t.owed})")
             if t.pool.group_cancels:
                 self.violate("C07.siblings", f"task {t.tid} observed a CancelledError ({where}) it was not owed, in a pool where groups were cancelled")
+            if t.pool.stop_calls:
+                self.violate("C14.targets", f"task {t.tid} observed a CancelledError ({where}) it was not owed, in a pool where stop() was used")
+            if t.pool.size_changed:
+                self.violate("C15.no_disturb", f"task {t.tid} observed a CancelledError ({where}) it was not owed, in a pool whose size was reassigned")
         if where == "cb":
             self.sit["cancel_seen_in_cb"] += 1
 
